@@ -1156,6 +1156,8 @@ def cite_axioms(formulas):
         memo[k] = r
         return r
     out = []
+    wraps = []
+    uses = [False]
     seen = set()
     stack = list(formulas)
     while stack:
@@ -1169,7 +1171,16 @@ def cite_axioms(formulas):
         if z3.is_app(t):
             if t.sort() == S and has_mark(t):
                 out.append(sp_cites(t))
+            elif t.sort() == S and t.decl().kind() == z3.Z3_OP_SEQ_CONCAT:
+                # a text that contains a citing text cites
+                for c in t.children():
+                    if not z3.is_string_value(c):
+                        wraps.append(z3.Implies(sp_cites(c), sp_cites(t)))
+            elif t.decl().eq(sp_cites):
+                uses[0] = True
             stack.extend(t.children())
+    if uses[0]:
+        out.extend(wraps)
     return out
 
 
